@@ -24,3 +24,10 @@ package joingroup
 //@   layout v0..v4 MemberID string, Metadata bytes
 //@   layout v5 MemberID string, GroupInstanceID string?, Metadata bytes
 //@   layout v6..v7 _ struct{} @-1, MemberID string, GroupInstanceID string?, Metadata bytes
+
+//@ property C12
+// Routing (C12): which of the protocol message interfaces the request satisfies decides where the Transport sends it
+// (connPool.sendRequest tests BrokerMessage, then GroupMessage, then TransactionalMessage).
+//@ wire Request
+//@   implements protocol.GroupMessage
+//@   notimplements protocol.BrokerMessage
